@@ -334,7 +334,7 @@ func runPsStream(c *hx.Ctx) {
 		emitPs(c, k)
 		c.Count("ps.boundary")
 	}
-	for i := 0; i < c.N(220, 2500); i++ {
+	for i := 0; i < c.N(220, 1200); i++ {
 		emitPs(c, genPsCase(c))
 	}
 }
